@@ -294,6 +294,29 @@ distinct = distinct (accessor, d, t-class); oracle = harness integer calendar: e
         }
     }
 
+    // History independence: an accessor is a function of its own (d, t) only.  Out-of-range and
+    // in-range calls are interleaved on the same day count and across accessors.
+    {
+        let n = ctx.tier.pick(40_000u64, 2_000_000u64);
+        let all: [Acc; 7] = [Acc::MessageHeader, Acc::RadialHeader, Acc::RadialModel, Acc::VolumeHeader, Acc::BypassMap, Acc::ClutterMapStatus, Acc::ClutterFilterMap];
+        for i in 0..n {
+            let d = match rng.below(4) {
+                0 => *rng.pick(&[1u16, 2, 19_999, 65_535]),
+                _ => rng.range(1, 65_535) as u16,
+            };
+            let a = *rng.pick(&all);
+            let b = if rng.chance(1, 2) { a } else { *rng.pick(&all) };
+            // first: a call with an out-of-range time on day d (only has to return) ...
+            let bad_t = if a.minutes() { rng.range(1440, 65_535) as u32 } else { *rng.pick(&[86_400_000u32, 86_400_001, 172_800_000, u32::MAX, 1 << 31]) };
+            check_no_panic(ctx, a, d as u32, bad_t);
+            // ... then a legal (d, t) on the same day: must be exact regardless of what came before
+            let t = if b.minutes() { rng.below(1440) as u32 } else { rng.below(86_400_000) as u32 };
+            let mut prev = None;
+            check_in_range(ctx, b, d, t, 5_000 + i, &mut prev);
+            ctx.obs.count("history_interleavings_checked", 1);
+        }
+    }
+
     // No-panic clause.
     let bad_ms = [86_400_000u32, 86_400_001, 1 << 31, u32::MAX, 100_000_000];
     for acc in MS_ACCS {
